@@ -58,6 +58,7 @@ type monitors struct {
 	failed   bool
 	msgs     int64
 	kindsGrp func(g uuid.UUID) string
+	cl       *sim.Cluster
 }
 
 func (m *monitors) note(s string) {
@@ -77,6 +78,12 @@ func (m *monitors) fail(sig, detail string) {
 		tr = tr[len(tr)-120:]
 	}
 	replay := map[string]interface{}{"desc": m.desc, "seed": m.rec.Seed(), "detail": detail, "event_tail": tr}
+	if m.cl != nil {
+		replay["log_stores_wrapped_twice"] = append([]string(nil), m.cl.Rewraps...)
+		if len(m.cl.Rewraps) > 0 {
+			detail += fmt.Sprintf(" | log stores wrapped twice: %v", m.cl.Rewraps)
+		}
+	}
 	if strings.HasPrefix(sig, "M7:") {
 		replay["ready_loop_goroutines"] = readyLoopStacks()
 	}
@@ -123,7 +130,7 @@ func scenario(rec *mon.Recorder, c int) {
 	rec.Current(desc)
 	cl := sim.New(sim.Options{Nodes: nodes, Dir: os.Getenv("VERIF_SCRATCH") + fmt.Sprintf("/c05-%d", c), TickEvery: 5 * time.Millisecond, Seed: rec.Seed()*1000 + int64(c), SimNet: true})
 	defer cl.Close()
-	m := &monitors{rec: rec, desc: desc, applied: map[applyKey]uint64{}, who: map[applyKey]string{}, next: map[string]uint64{}, leaders: map[string]uint64{}, prevView: map[string]*sim.Durable{}}
+	m := &monitors{cl: cl, rec: rec, desc: desc, applied: map[applyKey]uint64{}, who: map[applyKey]string{}, next: map[string]uint64{}, leaders: map[string]uint64{}, prevView: map[string]*sim.Durable{}}
 	gk := func(g uuid.UUID) string {
 		if uuid.Equal(g, uuid.Nil) {
 			return "zero"
@@ -132,8 +139,10 @@ func scenario(rec *mon.Recorder, c int) {
 	}
 	noiseSeed := uint64(rng.Int63())
 	var noiseCtr uint64
-	var slowNode uint64   // id of a node whose ready-loop is held up at every Ready (0 = none)
-	var slowLeader uint64 // id of a second such node (the leader, while a returning replica catches up)
+	late := c%8 == 6 && nodes == 3 // see the late-joiner family below
+	var lateSnap int32             // 1 = armed
+	var slowNode uint64            // id of a node whose ready-loop is held up at every Ready (0 = none)
+	var slowLeader uint64          // id of a second such node (the leader, while a returning replica catches up)
 	if c%2 == 1 {
 		// a slow disk in every second scenario: one durable write in eight takes 1-15 ms
 		var dctr uint64
@@ -148,6 +157,27 @@ func scenario(rec *mon.Recorder, c int) {
 	// ---- monitors -----------------------------------------------------------
 	cl.OnEvent = func(n *sim.Node, g uuid.UUID, point string, args ...interface{}) {
 		key := fmt.Sprintf("%d/%s/%d", n.Id, g, n.Incarnation)
+		if point == "beforeSave" && n.Idx == 2 && !uuid.Equal(g, uuid.Nil) && atomic.CompareAndSwapInt32(&lateSnap, 1, 2) {
+			// the late joiner is about to make its partition group's first durable write: its membership-and-
+			// catalogue group, which has applied "node 3 added to the partition", takes a snapshot now, so that a
+			// restart finds the node assigned to the partition from the start
+			cl.TriggerSnapshot(n, uuid.Nil, 0)
+			rec.Count("late_joiner_catalogue_snapshots_before_its_first_partition_write", 1)
+		}
+		if point == "beforeSave" && late && n.Idx == 2 && n.Incarnation >= 2 && !uuid.Equal(g, uuid.Nil) && len(args) > 0 {
+			// The late joiner is back after a crash. If its partition group had made nothing durable before the
+			// crash and now writes bootstrap entries of its own at index 1, it has started the group again as if
+			// it were a founding member: its log forks from the group's at the first index where they differ.
+			if rd, ok := args[0].(*etcdRaft.Ready); ok && len(rd.Entries) > 0 && rd.Entries[0].Index == 1 && rd.Entries[0].Type == raftpb.EntryConfChange {
+				if w := cl.WAL(n, g); w != nil {
+					if v := w.View(); v.Last == 0 && v.Term == 0 && v.SnapIndex == 0 {
+						m.mu.Lock()
+						m.fail("M4:replica-added-later-that-died-before-its-first-durable-write-bootstraps-the-group-again:"+gk(g), fmt.Sprintf("node %d was added to the partition group after it was founded, died before the group's first durable write on it, and on restart writes %d bootstrap membership entries of its own at index 1 (term %d) instead of waiting for the leader's log", n.Id, len(rd.Entries), rd.Entries[0].Term))
+						m.mu.Unlock()
+					}
+				}
+			}
+		}
 		if point == "ready" && len(args) > 0 {
 			if rd, ok := args[0].(*etcdRaft.Ready); ok {
 				seen := map[uint64]bool{}
@@ -294,7 +324,23 @@ func scenario(rec *mon.Recorder, c int) {
 		rec.Seen("crash_points", cp.Hit)
 	}
 	// ---- scenario -----------------------------------------------------------
-	if err := cl.Start(); err != nil {
+	// every eighth scenario: the third replica joins late (its groups start from an empty log) and crashes at one
+	// of its partition groups' first durable writes
+	if late {
+		for i := 0; i < 2; i++ {
+			if err := cl.StartNode(i); err != nil {
+				rec.Inconclusive(fmt.Sprintf("%s: node %d: %v", desc, i+1, err))
+				return
+			}
+			if i == 0 {
+				cl.WaitFor(20*time.Second, func() bool { return cl.Nodes[0].ZeroLeader() != 0 })
+			}
+		}
+		if cl.WaitMembership(2, 20*time.Second) != nil {
+			rec.Inconclusive(desc + ": the first two nodes do not list each other")
+			return
+		}
+	} else if err := cl.Start(); err != nil {
 		rec.Inconclusive(desc + ": cluster start: " + err.Error())
 		return
 	}
@@ -357,6 +403,57 @@ func scenario(rec *mon.Recorder, c int) {
 	}
 	phases := 6 + rng.Intn(5)
 	var script []string
+	if late {
+		phases = 0
+		k, side := 1+(c/8)%4, []string{"after", "before"}[(c/32)%2]
+		time.Sleep(300 * time.Millisecond) // some history before the third replica exists
+		var crashedAt int32
+		prevOnCrash := cl.OnCrash
+		cl.OnCrash = func(n *sim.Node, cp *sim.CrashPoint) {
+			atomic.StoreInt32(&crashedAt, 1)
+			if prevOnCrash != nil {
+				prevOnCrash(n, cp)
+			}
+		}
+		if (c/8)%2 == 0 {
+			atomic.StoreInt32(&lateSnap, 1)
+		}
+		cl.ArmCrashKind(2, "partition", k, side)
+		step := fmt.Sprintf("node 3 joins late; crash armed %s its partition groups' durable write %d", side, k)
+		script = append(script, step)
+		m.mu.Lock()
+		m.note("---- " + step)
+		m.mu.Unlock()
+		startErr := make(chan error, 1)
+		go func() { startErr <- cl.StartNode(2) }()
+		fired := cl.WaitFor(30*time.Second, func() bool { return atomic.LoadInt32(&crashedAt) == 1 }) == nil
+		cl.Disarm()
+		select {
+		case <-startErr:
+		case <-time.After(45 * time.Second):
+		}
+		if fired {
+			rec.Count("late_joiner_crashes_at_its_first_writes", 1)
+			time.Sleep(100 * time.Millisecond)
+			savePrev(2)
+			if err := cl.Restart(2); err != nil {
+				if strings.Contains(err.Error(), "join handshake did not return") {
+					rec.Inconclusive(desc + ": the late joiner's restart handshake did not return")
+					m.failed = true
+				} else {
+					m.mu.Lock()
+					m.fail("M6:restart-failed", fmt.Sprintf("node 3: %v", err))
+					m.mu.Unlock()
+				}
+			} else {
+				rec.Count("restarts", 1)
+				script = append(script, "restart n3")
+			}
+			time.Sleep(400 * time.Millisecond)
+		} else {
+			rec.Count("late_joiner_crash_point_not_reached", 1)
+		}
+	}
 	for ph := 0; ph < phases && !m.failed; ph++ {
 		pol := sim.Policy{}
 		switch rng.Intn(4) {
